@@ -29,7 +29,11 @@ for k in $(seq 1 $N); do
     done
     # the unchanged worktree must be green for the properties this worker ran
     for cid in $(awk -v n=$N -v k=$k 'NR % n == k % n' $W/all.txt | xargs -n1 dirname | xargs -n1 basename | sort -u); do
-      timeout 3000 /venv/bin/python harness/check.py $cid --tier quick 2>&1 | grep -E "VIOLATION" | sed "s/^/CLEAN-TREE-ALARM worker $k: /" >> $W/alarms.txt
+      timeout 3000 /venv/bin/python harness/check.py $cid --tier quick 2>&1 | grep -E "VIOLATION" | sed "s/^/CLEAN-TREE-ALARM worker $k: /" > $W/alarm$k.tmp
+      if [ -s $W/alarm$k.tmp ]; then
+        cat $W/alarm$k.tmp >> $W/alarms.txt
+        for f in build/replay/$cid-quick-*.json; do echo "  $f: $(head -c 900 $f)" >> $W/alarms.txt; done     # what failed, before the tree is removed
+      fi
     done
   ) &
 done
